@@ -22,6 +22,13 @@ pub enum Fate {
     Hung,
 }
 
+/// Hangs seen so far in this engine run (all slices).
+pub static HANGS: std::sync::atomic::AtomicUsize = std::sync::atomic::AtomicUsize::new(0);
+/// Cases skipped because too many hangs were already recorded.
+pub static SKIPPED: std::sync::atomic::AtomicUsize = std::sync::atomic::AtomicUsize::new(0);
+const CONFIRM_FIRST_HANGS: usize = 3;
+const MAX_HANGS: usize = 8;
+
 pub struct IsolatedRun {
     pub exe: std::path::PathBuf,
     pub base_args: Vec<String>,
@@ -58,6 +65,11 @@ fn describe_exit(st: std::process::ExitStatus) -> String {
 pub fn run_slice(run: &IsolatedRun, from: usize, to: usize, on: &mut dyn FnMut(usize, Fate)) {
     let mut next = from;
     while next < to {
+        if HANGS.load(std::sync::atomic::Ordering::Relaxed) >= MAX_HANGS {
+            // every hang costs the per-case timeout: stop exploring, the caller reports a cap
+            SKIPPED.fetch_add(to - next, std::sync::atomic::Ordering::Relaxed);
+            return;
+        }
         let mut child = spawn(run, next, to);
         let stdout = child.stdout.take().unwrap();
         let (tx, rx) = mpsc::channel::<String>();
@@ -122,8 +134,9 @@ pub fn run_slice(run: &IsolatedRun, from: usize, to: usize, on: &mut dyn FnMut(u
         match in_flight {
             Some(idx) => {
                 if hung {
-                    // confirm alone with a longer limit
-                    let fate = run_single(run, idx, run.confirm_timeout);
+                    // confirm alone with a longer limit (the first few only)
+                    let seen = HANGS.fetch_add(1, std::sync::atomic::Ordering::Relaxed);
+                    let fate = if seen < CONFIRM_FIRST_HANGS { run_single(run, idx, run.confirm_timeout) } else { Fate::Hung };
                     on(idx, fate);
                 } else {
                     on(idx, Fate::Died(status.map(describe_exit).unwrap_or_else(|| "unknown".into())));
